@@ -212,7 +212,7 @@ def stageUri (env : SrvEnv) (uri : Bytes) : Stage Unit :=
 def digitVal (c : UInt8) : Nat := c.toNat - 48
 
 /-- `_HTTP_PORT_PAT.fullmatch(p)` with the pattern `[0-9]*`, then `int(p)` unless `p` is empty
-(fix PENDING-server-host-port-syntax; before it `int(p.strip())`: `+8_0`, `-1`, ` 80` were read as ports).
+(fix 03842ff8; before it `int(p.strip())`: `+8_0`, `-1`, ` 80` were read as ports).
 `none` = refused (not all digits, or more digits than `int()` converts), `some none` = empty port (treated as no port) -/
 def portNumeral (p : Bytes) : Option (Option Nat) :=
   if p.all isDigit then
